@@ -107,12 +107,10 @@ def build_inputs(genome, variant, tag, gaps=None):
     gapset = {(ch, q) for (ch, lo, hi) in (gaps or []) for q in range(lo, hi)}
     sig_mem = {nm: numpy.array([numpy.nan if (i, q) in gapset else sigval(i, q) for q in range(len(g))], dtype=numpy.float64)
                for i, (nm, g) in enumerate(zip(names, genome))}
-    fa = os.path.join(TMP, "g%s.fa" % tag)
-    with open(fa, "w") as f:
-        for nm, s in zip(names, strs):
-            f.write(">%s\n" % nm)
-            for k in range(0, len(s), 7):
-                f.write(s[k:k + 7] + "\n")
+    # ONE FASTA path per process, rewritten in place for every case and its .fai left behind (a genome file that was updated):
+    # whatever is remembered about the path -- an index on disk, chromosome sizes in memory -- must not outlive the content
+    fa = os.path.join(TMP, "g%d.fa" % os.getpid())
+    base.fresh_write(fa, "".join(">%s\n%s" % (nm, "".join(s_[k:k + 7] + "\n" for k in range(0, len(s_), 7))) for nm, s_ in zip(names, strs)))
     import pyBigWig
     bwp = os.path.join(TMP, "s%s.bw" % tag)
     bw = pyBigWig.open(bwp, "w")
@@ -191,7 +189,7 @@ def run_loci(c, variant):
     except Exception as e:
         ev["st"] = "err"; ev["msg"] = "%s: %s" % (type(e).__name__, str(e)[:100])
     finally:
-        for p in (fa, fa + ".fai", bwp):
+        for p in (bwp,):
             if os.path.exists(p):
                 os.remove(p)
     return ev
